@@ -104,7 +104,10 @@ Trace_Close(c) == /\ ceof' = [ceof EXCEPT ![c] = TRUE]
                   /\ UNCHANGED <<cfgVars, aVars, sVars, kVars, pVars, cs, inbuf, kind, wr, nreq, hVars>>
 
 Act(e) ==
-  \/ e.ev = "Sig_Send" /\ Sig_Send /\ UNCHANGED got
+  \/ e.ev = "Sig_Send" /\ e.k # "again" /\ Sig_Send /\ UNCHANGED got
+  \* the second signal: logged before it is sent, so the run thread may or may not have taken the first one yet
+  \/ e.ev = "Sig_Send" /\ e.k = "again" /\ sent /\ UNCHANGED got
+       /\ IF rt = "threaded" /\ ~chan /\ spc # "recv" THEN Sig_Again ELSE UNCHANGED vars
   \/ e.ev = "Sig_Recv" /\ Sig_Recv /\ UNCHANGED got
   \/ e.ev = "Flag_Set" /\ Flag_Set /\ UNCHANGED got
   \/ e.ev = "Wake_Connect" /\ Wake_Connect /\ UNCHANGED got
